@@ -43,11 +43,21 @@ def as_map(agg) -> Dict[str, Any]:
     return json.loads(json.dumps(out, sort_keys=True, default=repr))
 
 
-def aggregate(records: List[Dict[str, Any]]) -> Dict[str, Any]:
+def aggregate(records: List[Dict[str, Any]], route: str = "list") -> Dict[str, Any]:
+    """route: how the records reach the aggregator - a list, a one-shot generator, an iterator, or one by one."""
     from semantiva.trace.aggregation.aggregator import TraceAggregator
 
     agg = TraceAggregator()
-    agg.ingest_many(copy.deepcopy(records))
+    recs = copy.deepcopy(records)
+    if route == "list":
+        agg.ingest_many(recs)
+    elif route == "generator":
+        agg.ingest_many(r for r in recs)
+    elif route == "iterator":
+        agg.ingest_many(iter(tuple(recs)))
+    else:
+        for r in recs:
+            agg.ingest(r)
     first = as_map(agg)
     second = as_map(agg)
     return {"first": first, "second": second}
@@ -130,7 +140,8 @@ def produce_launch(spec: Dict[str, Any], tdir: str) -> List[List[Dict[str, Any]]
         for att, fail in ((1, spec.get("fail")), (2, spec.get("fail2"))):
             sub = os.path.join(tdir, f"attempt{att}")
             os.makedirs(sub)
-            one = dict(spec, fail=fail, retry=False, cli=["--run-space-launch-id", "retried-launch", "--run-space-attempt", str(att)])
+            ident = ["--run-space-idempotency-key", "retried-key"] if spec["retry"] == "idempotency_key" else ["--run-space-launch-id", "retried-launch"]
+            one = dict(spec, fail=fail, retry=False, cli=ident + ["--run-space-attempt", str(att)])
             out += produce_launch(one, sub)
         return out
     n, fail = spec["runs"], spec.get("fail")
@@ -172,10 +183,25 @@ def examine(files: List[List[Dict[str, Any]]], meta: Dict[str, Any], data, col: 
         col.count({"t": trace_key, "cut": cut}, labs0 + ["prefix"], nontriv, sample=dict(sample, cut=cut))
         if res["first"] != res["second"]:
             col.add("finalising_twice_changes_verdict", {"kind": meta["kind"]}, {"meta": meta, "cut": cut, "records": emission}, res["second"], res["first"])
+        if cut % 3 == 0 or cut == n:
+            for route in ("generator", "iterator", "one_by_one"):
+                alt = aggregate(prefix, route)["first"]
+                col.labels["ingest_route:" + route] += 1
+                if alt != res["first"]:
+                    col.add("verdict_depends_on_how_records_are_handed_over", {"route": route, "kind": meta["kind"]}, {"meta": meta, "cut": cut, "records": emission, "route": route},
+                            {k: alt.get(k) for k in sorted(set(alt) | set(res["first"])) if alt.get(k) != res["first"].get(k)}, "the verdict of ingest_many(list)")
+                    break
         d = compare_to_reference(res["first"], reference_verdict(prefix))
         if d:
             last = prefix[-1]["record_type"] if prefix else "empty"
             col.add("prefix_verdict", {"field": d[0], "last_record": last, "kind": meta["kind"]}, {"meta": meta, "cut": cut, "records": emission}, d[1], d[2])
+    if meta.get("retry"):
+        # what was launched: attempt 1 and attempt 2 of one launch id; the full trace must show exactly those two launches
+        final = aggregate(emission)["first"]
+        attempts = sorted(int(k.rsplit(":", 1)[1]) for k in final if k.startswith("launch:"))
+        col.labels["retry_attempts_checked"] += 1
+        if attempts != [1, 2]:
+            col.add("launch_attempts_differ_from_what_was_launched", {"id": meta.get("retry")}, {"meta": meta, "cut": 10 ** 6}, attempts, [1, 2])  # replay re-runs the launch
     # (a'): a tailing aggregator (one object, ingest a line, finalise, ingest the next ...) must give, after every line,
     # the verdict a fresh aggregator gives for the same prefix (finalising is observational)
     from semantiva.trace.aggregation.aggregator import TraceAggregator
@@ -247,7 +273,7 @@ def c13_case(draw):
         return {"kind": "launch", "runs": draw(st.integers(1, 4)), "fail": draw(st.sampled_from([None, None, 0, 1, 2, 3])),
                 "mode": draw(st.sampled_from(["file", "dir"])), "pipe": draw(st.integers(0, 2)),
                 # a retried launch: the same launch id with attempt 1 and attempt 2, aggregated together
-                "retry": draw(st.sampled_from([False, True, False])), "fail2": draw(st.sampled_from([None, 0, None, 1]))}
+                "retry": draw(st.sampled_from([False, "launch_id", False, "idempotency_key"])), "fail2": draw(st.sampled_from([None, 0, None, 1]))}
     c = draw(gen.case(max_nodes=6, rare=True))
     return {"kind": "single", "case": c, "detail": draw(st.sampled_from(["hash", "all"]))}
 
@@ -349,6 +375,14 @@ def replay(case: Dict[str, Any]) -> List[Dict[str, Any]]:
         elif "cut" in case:
             prefix = emission[: case["cut"]]
             res = aggregate(prefix)
+            if case.get("route"):
+                alt = aggregate(prefix, case["route"])["first"]
+                if alt != res["first"]:
+                    col.add("verdict_depends_on_how_records_are_handed_over", {"route": case["route"], "kind": meta["kind"]}, case, alt, res["first"])
+            if meta.get("retry") and case["cut"] >= len(emission):
+                attempts = sorted(int(k.rsplit(":", 1)[1]) for k in res["first"] if k.startswith("launch:"))
+                if attempts != [1, 2]:
+                    col.add("launch_attempts_differ_from_what_was_launched", {"id": meta.get("retry")}, case, attempts, [1, 2])
             d = compare_to_reference(res["first"], reference_verdict(prefix))
             if d:
                 col.add("prefix_verdict", {"field": d[0], "last_record": prefix[-1]["record_type"] if prefix else "empty", "kind": meta["kind"]}, case, d[1], d[2])
